@@ -1228,6 +1228,21 @@ func sfeGenCase(r *Rng, v2 bool, seqno int) *sfeCase {
 		if ht == 1 && r.Chance(50) {
 			in.sht = 0
 		}
+		// taproot: walk through declared type x type the signature is made with, both from
+		// {absent/DEFAULT, ALL, NONE, SINGLE, ALL|ACP, NONE|ACP, SINGLE|ACP}; DEFAULT is a 64-byte signature
+		tapSigned := -1
+		if taproot && r.Chance(60) {
+			types := []uint32{0, 1, 2, 3, 0x81, 0x82, 0x83}
+			cell := (seqno*3 + i) % (len(types) * len(types))
+			in.sht = types[cell/len(types)]
+			tapSigned = int(types[cell%len(types)])
+			if r.Chance(35) {
+				// the usual signer output, a 64-byte DEFAULT signature, under a declared type that is not ALL
+				in.sht = types[2+r.Intn(5)]
+				tapSigned = 0
+			}
+			ht = in.sht
+		}
 		preload := r.Chance(50)
 		if preload {
 			in.rs, in.ws = pl.redeem, pl.wscript
@@ -1270,7 +1285,9 @@ func sfeGenCase(r *Rng, v2 bool, seqno int) *sfeCase {
 		}
 		for pos, ki := range order {
 			sht := ht
-			if pos == wrongAt {
+			if tapSigned >= 0 {
+				sht = uint32(tapSigned)
+			} else if pos == wrongAt {
 				switch r.Intn(3) {
 				case 0:
 					sht = ht ^ 0x80
